@@ -82,6 +82,14 @@ CLAIMED = {
         "note": "chrono's calendar arithmetic trusted; WEEKDAY's return-type table not decided. " + TRUST,
         "technique": "constant extraction from MIR + algebraic identity on proleptic-Gregorian ordinals + who-may-convert",
     },
+    "C22": {
+        "level": "Static decision of the sheet-name quoting clause for every Unicode scalar value, by interpreting the MIR of "
+                 "name_needs_quoting, consume_identifier and next_token's first-character dispatch over a partition of the code "
+                 "points by everything those bodies can observe; plus inverse escape/unescape constants.",
+        "note": "Python's str predicates stand in for Rust's char predicates (recorded assumption); column-letter arithmetic and "
+                "reference look-alike checks (parse_reference_a1/r1c1) are not decided. " + TRUST,
+        "technique": "finite-domain path interpretation of MIR with concrete character predicates, exhaustive by equivalence class",
+    },
     "C23": {
         "level": "Exhaustive static decision over finite tables: Function<->field codecs extracted from MIR are mutually "
                  "inverse bijections (495 x 3 tables), xlsx names parse back, and per language (5 x 495 names, 12 errors) the "
